@@ -58,6 +58,8 @@ type Spec struct {
 	Pool        []string     `json:"pool,omitempty"`
 	PoolDelayMs int          `json:"pool_delay_ms,omitempty"` // the first NewStream call takes this long (e.g. a connect attempt)
 	Events      []Event      `json:"events,omitempty"`
+	// the downstream sender (stream layer) returns an error from these calls: "hdr" (AppendHeaders), "data", "trl"
+	SenderErr   []string     `json:"sender_err,omitempty"`
 	// time-out sources (ms; 0 = absent): route config, request headers, protocol-supplied variables
 	RouteGlobalMs int `json:"route_global_ms,omitempty"`
 	RouteTryMs    int `json:"route_try_ms,omitempty"`
@@ -347,6 +349,15 @@ func runPrepared(p *prepared) (res *Result) {
 	}
 	histReg.Delete(h.id)
 	return
+}
+
+func (sp *Spec) senderFails(call string) bool {
+	for _, c := range sp.SenderErr {
+		if c == call {
+			return true
+		}
+	}
+	return false
 }
 
 func (sp *Spec) settleMs() int {
